@@ -1088,7 +1088,7 @@ func (w *World) coqToken(b *Built) string {
 		prf = append(prf, fmt.Sprint(w.lid(l)))
 	}
 	signer := "None"
-	if b.Signer != 0 {
+	if b.Signer != 0 && len(d.Signature().Bytes()) > 0 { // a block that does not decode as a UCAN carries no signature at all (token-view:signer)
 		signer = fmt.Sprintf("(Some %d)", b.Signer)
 	}
 	return fmt.Sprintf("(mkTok %s %s [%s] [%s] %s (%d)%%Z %d %s)",
